@@ -17,16 +17,24 @@ THEOREMS = [
     'Pfst.C12.withStep_failed', 'Pfst.C12.withStep_registry', 'Pfst.C12.raw_fallback_atomic', 'Pfst.C12.putOne_registry',
 ]
 RULE = ('(a) correspondence: generated well-nested histories (with-blocks, exceptions raised at every depth and position, '
-        'try/except continuing, the unpar manual skeleton, the _put_one/_put_slice raw-fallback skeleton, 2-3 real trees at '
-        'once, same node / other node of the same tree / force / raw) run against the real _Modifying class and the real '
-        'unpar/_put_one/_put_slice functions (callees stubbed to run the nested history) on real FST nodes; the registry '
-        '_MODIFYING canonicalised as (root index, node index, depth) after EVERY enter/success/fail plus the propagating '
-        'exception class is compared with the Lean model. distinct = distinct (history, trees); non-trivial = an exception '
-        'is raised inside at least one modification. (b) sweep: sequences (k<=10) of invalid requests of every kind mixed '
-        'with valid edits through replace/put/put_slice/insert/append/prepend/extend/remove/attribute and item assignment '
-        'on every kind of target of corpus programs; every call that RAISES is judged: src and ast.dump(with positions) '
-        'identical, registry empty, following valid edit identical to the same edit on a fresh twin and equal to a CPython '
-        'parse. distinct = distinct (source, request); all are non-trivial (the call raised)')
+        'try/except continuing, the unpar manual skeleton, the _put_one/_put_slice raw-fallback skeleton, the put_src(reparse) '
+        'with-block, 1-3 real trees at once, same node / other node of the same tree / force / raw) run against the real '
+        '_Modifying class and the real unpar/_put_one/_put_slice/put_src functions (callees stubbed to run the nested history) '
+        'on real FST nodes; the registry _MODIFYING canonicalised as (root index, node index, depth) after EVERY '
+        'enter/success/fail plus the propagating exception class is compared with the Lean model. distinct = distinct (history, '
+        'trees); non-trivial = an exception is raised inside at least one modification. (b) sweep: trees = corpus programs '
+        '(Module roots), ~110 hand-written special trees (non-Module roots of every parse mode, the special slice containers '
+        '_ExceptHandlers/_match_cases/_arglikes/_Assign_targets/_decorator_list/_aliases/_withitems/_type_params/'
+        '_comprehensions/..., arguments of every shape incl. leading bare *, / first, only **kw) and containers / sub-roots cut '
+        'out of corpus programs by get_slice()/copy(). On each: sequences (k<=10) of invalid requests of 22 kinds mixed with '
+        'valid edits through replace/put/put_slice/insert/append/prepend/extend/prextend/remove/attribute and item '
+        'assignment/deletion, slice requests to the virtual fields (_all/_args/_bases/_body/_attrs), deletes of every field, '
+        'requests on the root itself, raw puts and put_src(action=reparse) with text that breaks the source; plus systematic '
+        'families on the small trees (delete every node and field; every position x every rule-breaking code of every slice '
+        'field). Every call that RAISES is judged: src, ast.dump(with positions) of the whole root and the AST<->FST node '
+        'links identical, registry empty, following valid edit on the SAME tree (registry left as the failed call left it) '
+        'identical to the same edit on a fresh twin and equal to a from-scratch parse. distinct = distinct (source, mode, '
+        'request); all are non-trivial (the call raised)')
 TRUSTED = [
     'modelled: fst_core._MODIFYING (insertion-ordered dict), _Modifying.enter/success/fail/__exit__ registry effects incl. '
     'same-node nesting count, force, the RuntimeError for a different node, enter raising before any registry change; the '
@@ -35,8 +43,10 @@ TRUSTED = [
     'not modelled: the f-string debug-text bookkeeping of enter()/success() (fields fst/field/data; success() may splice '
     'source AFTER releasing the registry entry); the put handlers themselves (hundreds of raise sites) - whether each '
     'validates before it mutates is evaluated per failing call by the sweep on the real code, not proved',
-    'sweep oracle: CPython ast.dump/ast.parse only; pfst is used to build the tree, address nodes (walk order) and make the '
-    'call under test',
+    'sweep oracle: CPython ast.dump / ast.parse and plain attribute traversal (a.f / f.a / f.parent); pfst is used to build '
+    'the tree and the fresh twin (FST(src, mode): for non-Module roots pfst\'s parser in that mode IS the from-scratch '
+    'reference), to address nodes (walk order), to enumerate slice fields (_PUT_SLICE_HANDLERS keys) and to make the call '
+    'under test',
 ]
 ASSUMPTIONS = [
     'one API call is one atomic step; no threads (the registry is process-global)',
@@ -67,7 +77,7 @@ def _programs(ctx, n, stdlib):
 
 def correspondence(ctx):
     q = ctx.quick
-    progs = _programs(ctx, 240 if q else 1800, 10 if q else 80)
+    progs = _programs(ctx, 200 if q else 1800, 8 if q else 80)
     rng = random.Random(ctx.rng.random())
     groups = []
     i = 0
@@ -119,9 +129,21 @@ def correspondence(ctx):
 
 # ---- sweep ----------------------------------------------------------------------------------------------------------
 
-def _run_sweep(ctx, progs, n_seq, k, only=None):
-    items = [(p, ctx.rng.randrange(1 << 30), n_seq, k, only) for p in progs]
-    res = pmap(c12_sweep.run_sequence, items)
+def _items(ctx, progs, n_seq, k, n_special, special_cap, n_derive, derive_cap):
+    """work items for c12_sweep.run_tree: corpus programs as Module trees (random sequences), the hand-written special
+    trees (non-Module roots, slice containers, every shape of arguments; random sequences + systematic families) and
+    containers / sub-roots cut out of corpus programs with get_slice()/copy()"""
+    items = [({'src': p, 'mode': 'exec'}, ctx.rng.randrange(1 << 30), n_seq, k, None, 0) for p in progs]
+    for rep in range(n_special):
+        for src, mode in c12_sweep.SPECIAL:
+            items.append(({'src': src, 'mode': mode}, ctx.rng.randrange(1 << 30), 2, k, None, special_cap if rep == 0 else 0))
+    for p in progs[:n_derive]:
+        items.append(({'src': p, 'derive': 3}, ctx.rng.randrange(1 << 30), 1, k, None, derive_cap))
+    return items
+
+
+def _run_sweep(ctx, items):
+    res = pmap(c12_sweep.run_tree, items)
     n_raise = n_ok = 0
     allfails = []
     for r in res:
@@ -134,25 +156,32 @@ def _run_sweep(ctx, progs, n_seq, k, only=None):
             for kk, v in d.items():
                 dd[kk] = dd.get(kk, 0) + v
         allfails.extend(r['fails'])
-    allfails.sort(key=lambda f: len(f[2].get('src', '')))       # smallest witness first (it becomes the replay file)
-    for sig, what, wit in allfails[:400]:
-        ctx.fail(sig, what, wit)
+    # smallest witness first (it becomes the replay file); among equals one whose follow-up shows the consequence
+    allfails.sort(key=lambda f: (len(f[2].get('src', '')) + (0 if 'followup_exc' in f[2] or 'after_src' in f[2] else 40)))
+    seen = {}
+    for sig, what, wit in allfails:
+        seen[sig] = seen.get(sig, 0) + 1
+        if seen[sig] <= 3:
+            ctx.fail(sig, what, wit)
+    ctx.notes['failure_signatures'] = seen
     return n_raise, n_ok
 
 
 def sweep(ctx):
     q = ctx.quick
-    progs = _programs(ctx, 600 if q else 4500, 25 if q else 300)
-    n_raise, n_ok = _run_sweep(ctx, progs, 2 if q else 3, 10)
+    progs = _programs(ctx, 380 if q else 3500, 16 if q else 250)
+    items = _items(ctx, progs, 2 if q else 3, 10, 1 if q else 4, 110 if q else 600, 90 if q else 1200, 25 if q else 80)
+    n_raise, n_ok = _run_sweep(ctx, items)
     ctx.notes['raising_calls_judged'] = n_raise
     ctx.notes['non_raising_calls'] = n_ok
-    if n_raise < (2000 if q else 20000):
+    if n_raise < (4000 if q else 40000):
         ctx.brk('correspondence', 'C12.sweep', f'only {n_raise} raising calls were produced: the sweep no longer exercises the property')
 
 
 def search(ctx):
-    progs = _programs(ctx, 1200, 60)
-    n_raise, n_ok = _run_sweep(ctx, progs, 3, 10)
+    progs = _programs(ctx, 1000, 50)
+    items = _items(ctx, progs, 3, 10, 3, 500, 400, 60)
+    n_raise, n_ok = _run_sweep(ctx, items)
     ctx.notes['search_raising_calls'] = n_raise
 
 
@@ -162,4 +191,4 @@ def replay(ctx, data):
         print('replay file names a broken obligation, not an input:', [b for b in data.get('broken', [])][:3])
         return
     for sig, what, wit in c12_sweep.replay_witness(w):
-        ctx.fail('replay', what, wit)
+        ctx.fail(sig, what, wit)
